@@ -532,7 +532,7 @@ def dmrg_cross(function, N, eps = 1e-9, nswp = 10, x_start = None, kick = 2, dty
             V = tn.diag(S) @ V
             UK = tn.randn((U.shape[0],kick), dtype = dtype, device = device)
             U, Rtemp = QR( tn.cat( (U,UK) , 1) )
-            radd = U.shape[1] - rnew
+            radd = Rtemp.shape[1] - rnew
             if radd>0: 
                 V =  tn.cat( (V,tn.zeros((radd,V.shape[1]), dtype = dtype, device = device)) , 0 )
                 V = Rtemp @ V
@@ -614,7 +614,7 @@ def dmrg_cross(function, N, eps = 1e-9, nswp = 10, x_start = None, kick = 2, dty
             U = U @ tn.diag(S)
             VK = tn.randn((kick,V.shape[1]) , dtype=dtype, device = device)
             V, Rtemp = QR( tn.cat( (V,VK) , 0).t() )
-            radd = V.shape[1] - rnew
+            radd = Rtemp.shape[1] - rnew
             if radd>0:
                 U =  tn.cat( (U,tn.zeros((U.shape[0],radd), dtype = dtype, device = device)) , 1 ) 
                 U = U @ Rtemp.T
